@@ -712,6 +712,19 @@ func (m *Manager) configureTasks(envId uid.ID, tasks Tasks) error {
 			return fmt.Errorf("task %s on %s has nil parent, this should never happen", task.GetClassName(), task.GetHostname())
 		}
 		taskPath := task.GetParentRolePath()
+		if class := task.GetTaskClass(); class != nil {
+			// a global channel alias stands for one endpoint: two channels of this task cannot both claim it
+			aliases := make(map[string]struct{})
+			for _, ch := range channel.MergeInbound(task.GetParent().CollectInboundChannels(), class.Bind) {
+				if len(ch.Global) == 0 {
+					continue
+				}
+				if _, claimed := aliases[ch.Global]; claimed {
+					return fmt.Errorf("workflow template contains illegal redefinition of global channel alias ::%s", ch.Global)
+				}
+				aliases[ch.Global] = struct{}{}
+			}
+		}
 		for inbChName, endpoint := range task.GetLocalBindMap() {
 			var bindMapKey string
 			if strings.HasPrefix(inbChName, "::") { // global channel alias
